@@ -32,7 +32,12 @@ impl Opts {
 }
 
 fn main() {
-    std::panic::set_hook(Box::new(|_| {}));
+    // panics of the code under test are expected and caught case by case; VERIF_DEBUG=1 shows where they come from
+    if std::env::var("VERIF_DEBUG").is_ok() {
+        std::panic::set_hook(Box::new(|info| eprintln!("panic: {}", info)));
+    } else {
+        std::panic::set_hook(Box::new(|_| {}));
+    }
     let args: Vec<String> = std::env::args().collect();
     if args.len() < 2 {
         eprintln!("usage: vpharness <check> [--tier quick|thorough] [--seed N] [--out DIR] [--shards K]");
